@@ -1,7 +1,7 @@
 #!/bin/bash
 # runall.sh [tier] : run every registered check sequentially, print the summary lines
 tier=${1:-quick}
-cd /verif
+cd "$(dirname "${BASH_SOURCE[0]}")/.."
 for id in $(python3-vt -c "import json; print(' '.join(c['property_id'] for c in json.load(open('MANIFEST.json'))['checks']))"); do
   out=$(./check $id --tier $tier 2>&1); rc=$?
   echo "$(echo "$out" | grep -E "^C[0-9]+ tier" | tail -1) rc=$rc"
